@@ -3,7 +3,7 @@
 Require Extraction.
 Require Import ExtrOcamlBasic.
 From Coq Require Import NArith ZArith List.
-From VT Require Import Gen.Constants Base.Outcome Model.Cache Model.BBox Model.Pyramid Model.Pipeline Model.Stream Model.FileIO Model.Recompress Model.Http Model.StaticPath Model.Json Model.VPL Model.MVT Model.Crash Model.TileId Model.PMDir Model.VTFormat Model.VTBlock Model.Csv Model.Chunk Model.MBTiles Model.Naming Model.Geo Model.VPLArgs Model.MVTUpdate Model.TileJson Proofs.VPLProofs Proofs.VPLRoundtrip.
+From VT Require Import Gen.Constants Base.Outcome Model.Cache Model.BBox Model.Pyramid Model.Pipeline Model.Stream Model.FileIO Model.Recompress Model.Http Model.StaticPath Model.Json Model.VPL Model.MVT Model.Crash Model.TileId Model.PMDir Model.VTFormat Model.VTBlock Model.Csv Model.Chunk Model.MBTiles Model.Naming Model.Geo Model.VPLArgs Model.MVTUpdate Model.TileJson Model.Guards Proofs.VPLProofs Proofs.VPLRoundtrip.
 Extraction Blacklist String List Nat Int Char.
 Set Extraction KeepSingleton.
 Extraction "../ocaml/model.ml"
@@ -23,6 +23,7 @@ Extraction "../ocaml/model.ml"
   Crash.vt_wfb Crash.pm_wfb Crash.vt_parse_header Crash.pm_view Crash.crash_state Crash.run_ops Crash.vt_index_of
   Constants.mbtiles_row_variant MBTiles.level_bounds Naming.parse_member Naming.render_member
   MVTUpdate.update_tile MVTUpdate.row_props MVTUpdate.bt_of
+  Constants.subreader_variant Constants.fm_unwrap_variant Guards.sub_reader
   Constants.tj_merge_variant TileJson.merge TileJson.update_from_pyramid TileJson.tj_default
   Constants.geo_guard_variant Geo.axis_box VPLArgs.bbox_builds VPLArgs.zoom_builds
   Constants.csv_tail_variant Constants.vt_stream_variant Csv.read_csv Chunk.stream
